@@ -723,6 +723,15 @@ def c_gen_continue_after(a, b):
         ev(('done', v))
     return out
 
+def h_split(value, span):
+    no, rel = divmod(value, span)
+    return no * span, rel
+
+def c_divmod(a, b):
+    origin, _ = h_split(a * 7 - 9, b + 1)
+    _, rel = h_split(a * 7 - 9, b + 1)
+    return origin, rel
+
 def c_meth(v, a):
     return K(v).caller_m(a)
 
@@ -793,6 +802,7 @@ def main():
         'c_starcall': itertools.product(vals, vals), 'c_starcall_kw': itertools.product(vals, vals), 'c_methexpr': itertools.product(vals, vals),
         'c_methval_call': itertools.product(vals, vals),
         'c_gen_continue': itertools.product(vals, vals), 'c_gen_continue_after': itertools.product(vals, vals),
+        'c_divmod': itertools.product(vals, vals),
         'c_rng_swapped': itertools.product(vals, vals), 'c_closure': itertools.product(vals, vals), 'c_try_rest': [(v,) for v in vals], 'c_try_ret': [(v,) for v in vals], 'c_try_norets': [(v,) for v in vals], 'c_rng_self': itertools.product(vals, vals),
     }
     bad = 0
